@@ -271,6 +271,14 @@ def case_strategy(draw, tier="quick"):
                 if w:
                     post.append(w)
         stp["post"] = post
+        # a last write in independent data mode by one rank that extends the record dimension; when the next step is a
+        # redefinition it is entered straight from independent mode (per-rank record counts differ at that moment)
+        recs = [i for i, v in enumerate(gs.vars) if v["rec"]]
+        if recs and gs.curk > 1 and gs.numrecs < 10 and G.chance(draw, 30):
+            w = draw_write(draw, gs, draw(st.sampled_from(recs)), whole=False, ext=draw(st.sampled_from([1, 2])))
+            if w:
+                w["wmode"] = "indep"
+                stp["tail_indep"] = w
         steps.append(stp)
     case["steps"] = steps
     return case
@@ -471,7 +479,7 @@ class Builder:
                 self.labels.add("prefilled_fixvar")
 
     # -- data
-    def write(self, w):
+    def write(self, w, stay=False):
         p, fm, curk = self.p, self.fm, self.curk
         vi = w["var"]
         v = fm.vars[vi]
@@ -489,6 +497,11 @@ class Builder:
         if mode == "indep":
             self.op("begin_indep", f="f0")
             p.put(fm, writer, rq(w["start"], w["count"], w["seed"]), fm.numrecs, coll=False)
+            if stay:
+                # stay in independent mode: no end_indep, no sync - the next call is ncmpi_redef
+                p.op("barrier", expect=None)
+                self.labels.add("redef_from_indep_mode")
+                return
             self.op("end_indep", f="f0")
             self.labels.add("write_indep")
         else:
@@ -652,6 +665,11 @@ def build(case):
                 b.labels.add("post_write_new" if w["var"] >= nvold and finish != "abort" else "post_write_old")
         if stp["post"]:
             b.observe("step %d: after writes" % si, "writes")
+        tail = stp.get("tail_indep")
+        if tail and tail["var"] < len(b.fm.vars) and b.fm.is_rec(b.fm.vars[tail["var"]]):
+            nxt = case["steps"][si + 1] if si + 1 < len(case["steps"]) else None
+            stay = bool(nxt and nxt["op"] == "redef" and nxt["finish"] != "abort" and b.curk == k and k > 1)
+            b.write(tail, stay=stay)
     # ---- wrap up
     b.op("close", f="f0")
     b.curk = k
